@@ -5,6 +5,7 @@ package c04
 import (
 	"fmt"
 	"go/ast"
+	"go/constant"
 	"go/token"
 	"go/types"
 	"strings"
@@ -313,81 +314,165 @@ func r1(c *core.Ctx, s *c03.Sender) *envelope {
 	return e
 }
 
-// exemption: the flag is cleared only when resume is off or the batch is a lone ping.
+// exemption: the flag is false only when resume is off or the batch is a lone ping.
+// Every assignment `flag = E` under its guard G (the if / else / tagless-switch
+// conditions that lead to it) is read as a boolean formula over three atoms --
+// R: ds.enableResumeFromBreakPoint, N: <count> == 1, P: last.Cmd == "ping" --
+// and (G && !E) => (!R || (N && P)) is checked on the truth table. Anything
+// that is not built from these atoms with !, &&, ||, ==, != is UNDECIDED.
 func exemption(c *core.Ctx, s *c03.Sender, e *envelope) {
 	const rule = "R1.envelope"
 	info := s.Info
+	type val struct{ r, n, p bool }
+	var eval func(x ast.Expr, v val, depth int) (bool, bool)
+	eval = func(x ast.Expr, v val, depth int) (bool, bool) {
+		x = ast.Unparen(x)
+		if tv, ok := info.Types[x]; ok && tv.Value != nil && tv.Value.Kind() == constant.Bool {
+			return constant.BoolVal(tv.Value), true
+		}
+		switch y := x.(type) {
+		case *ast.UnaryExpr:
+			if y.Op == token.NOT {
+				b, ok := eval(y.X, v, depth)
+				return !b, ok
+			}
+		case *ast.BinaryExpr:
+			switch y.Op {
+			case token.LAND, token.LOR:
+				a, ok1 := eval(y.X, v, depth)
+				b, ok2 := eval(y.Y, v, depth)
+				if !ok1 || !ok2 {
+					return false, false
+				}
+				if y.Op == token.LAND {
+					return a && b, true
+				}
+				return a || b, true
+			case token.EQL, token.NEQ:
+				l, r := ast.Unparen(y.X), ast.Unparen(y.Y)
+				for k := 0; k < 2; k++ {
+					if n, isC := core.IntConst(info, r); isC && n == 1 {
+						if _, lc := core.IntConst(info, l); !lc {
+							if bt, ok := info.TypeOf(l).Underlying().(*types.Basic); ok && bt.Info()&types.IsInteger != 0 {
+								return v.n == (y.Op == token.EQL), true
+							}
+						}
+					}
+					if sv, isS := core.StringConst(info, r); isS && sv == "ping" {
+						if sel, ok := l.(*ast.SelectorExpr); ok && sel.Sel.Name == "Cmd" {
+							if _, isLast := lastOfBatch(info, s, sel.X); isLast || isLastIndex(info, s, sel.X) {
+								return v.p == (y.Op == token.EQL), true
+							}
+						}
+					}
+					l, r = r, l
+				}
+			}
+		case *ast.SelectorExpr:
+			if y.Sel.Name == "enableResumeFromBreakPoint" && c03.FieldIs(info, y, c03.Syncer, "enableResumeFromBreakPoint") {
+				return v.r, true
+			}
+		case *ast.Ident:
+			// a named condition
+			if depth > 0 {
+				if o, ok := c03.SoleOrigin(info, s.Lit, y); ok && o.Expr != nil && o.Op == 0 && !o.Range && o.Res < 0 && !o.Param && !c03.IsObj(info, e.nb)(y) {
+					return eval(o.Expr, v, depth-1)
+				}
+			}
+		}
+		return false, false
+	}
 	n := 0
 	core.Inspect(s.Lit, func(m ast.Node) bool {
 		as, ok := m.(*ast.AssignStmt)
 		if !ok || len(as.Lhs) != 1 || len(as.Rhs) != 1 || !c03.IsObj(info, e.nb)(as.Lhs[0]) {
 			return true
 		}
-		if v, ok := info.Types[as.Rhs[0]]; !ok || v.Value == nil {
-			// flag := resume && !(count == 1 && last.Cmd == "ping"), possibly through a named local
-			n++
-			good := false
-			if b := pat.Expr(`_ds.enableResumeFromBreakPoint && !_p`).Match(info, as.Rhs[0], nil); b != nil {
-				inner := b["_p"].(ast.Expr)
-				if o, ok := c03.SoleOrigin(info, s.Lit, inner); ok && o.Expr != nil && o.Op == 0 && !o.Range && o.Res <= 0 {
-					inner = o.Expr
-				}
-				if b2 := pat.Expr(`_n == 1 && _last.Cmd == "ping"`).Match(info, inner, nil); b2 != nil {
-					_, good = lastOfBatch(info, s, b2["_last"].(ast.Expr))
-				}
-			}
-			if good {
-				c.Okf(rule, "unbatched-only-for-ping", as.Pos(), "the envelope is omitted only when resume is disabled or the batch is a single ping")
-			} else {
-				c.Undecidedf(rule, "unbatched-only-for-ping", as.Pos(), "the batching flag is computed by `%s`", c.Src(as))
-			}
-			return true
-		} else if v.Value.String() == "true" {
+		if v, ok := info.Types[as.Rhs[0]]; ok && v.Value != nil && v.Value.String() == "true" {
 			return true
 		}
 		n++
-		// the guarding condition: an if, or a case of a tagless switch
-		var cond ast.Expr
+		// the guard: conditions of the enclosing if / else arms and tagless switch cases
+		var guard []ast.Expr
+		neg := func(x ast.Expr) ast.Expr { return &ast.UnaryExpr{Op: token.NOT, X: &ast.ParenExpr{X: x}} }
 		path := core.PathTo(s.Lit, as)
-		for i := len(path) - 1; i > 0 && cond == nil; i-- {
-			if ifs, ok := path[i-1].(*ast.IfStmt); ok && path[i] == ast.Node(ifs.Body) {
-				cond = ifs.Cond
-			}
-			if cc, ok := path[i].(*ast.CaseClause); ok && i >= 2 {
-				if sw, ok := path[i-2].(*ast.SwitchStmt); ok && sw.Tag == nil && len(cc.List) > 0 {
-					cond = cc.List[0]
-					for _, e := range cc.List[1:] {
-						cond = &ast.BinaryExpr{X: cond, Op: token.LOR, Y: e}
-					}
+		for i := 0; i+1 < len(path); i++ {
+			switch p := path[i].(type) {
+			case *ast.IfStmt:
+				if path[i+1] == ast.Node(p.Body) {
+					guard = append(guard, p.Cond)
+				} else if p.Else != nil && path[i+1] == ast.Node(p.Else) {
+					guard = append(guard, neg(p.Cond))
 				}
-			}
-		}
-		ok = false
-		if cond != nil {
-			// every disjunct is "resume is off" or "the batch is a lone ping"
-			ok = true
-			alts := c03.Alts(cond, true)
-			if len(alts) == 0 { // not a disjunction: the condition is the only alternative
-				alts = []cfgq.Fact{{Expr: cond, Val: true}}
-			}
-			for _, ft := range alts {
-				if !ft.Val {
-					ft = cfgq.Fact{Expr: &ast.UnaryExpr{Op: token.NOT, X: ft.Expr}, Val: true}
-				}
-				if pat.Expr(`!_ds.enableResumeFromBreakPoint`).Match(info, ft.Expr, nil) != nil {
+			case *ast.SwitchStmt:
+				if p.Tag != nil || i+2 >= len(path) {
 					continue
 				}
-				if b := pat.Expr(`_n == 1 && _last.Cmd == "ping"`).Match(info, ft.Expr, nil); b != nil {
-					if _, isLast := lastOfBatch(info, s, b["_last"].(ast.Expr)); isLast {
+				cc, ok := path[i+2].(*ast.CaseClause)
+				if !ok {
+					continue
+				}
+				for _, cl := range p.Body.List {
+					o := cl.(*ast.CaseClause)
+					var cond ast.Expr
+					for _, ce := range o.List {
+						if cond == nil {
+							cond = ce
+						} else {
+							cond = &ast.BinaryExpr{X: cond, Op: token.LOR, Y: ce}
+						}
+					}
+					if o == cc {
+						if cond != nil {
+							guard = append(guard, cond)
+						}
+						if cond != nil {
+							break
+						}
 						continue
 					}
+					if cond != nil && (cc.List == nil || o.Pos() < cc.Pos()) {
+						guard = append(guard, neg(cond)) // earlier cases (all cases for default) did not match
+					}
 				}
-				ok = false
 			}
 		}
-		if ok {
+		good, readable, guardReadable := true, true, true
+		witness := ""
+		for _, r := range []bool{false, true} {
+			for _, nn := range []bool{false, true} {
+				for _, pp := range []bool{false, true} {
+					v := val{r, nn, pp}
+					g := true
+					for _, gx := range guard {
+						b, ok := eval(gx, v, 3)
+						if !ok {
+							// a guard the rule cannot read may hold or not: assume it holds (stronger requirement)
+							b = true
+							guardReadable = false
+						}
+						g = g && b
+					}
+					ev, ok := eval(as.Rhs[0], v, 3)
+					if !ok {
+						readable = false
+						continue
+					}
+					if g && !ev && !(!v.r || (v.n && v.p)) {
+						good = false
+						witness = fmt.Sprintf("resume enabled, batch of %s command(s), last command %s", map[bool]string{true: "one", false: "several"}[v.n], map[bool]string{true: "ping", false: "not ping"}[v.p])
+					}
+				}
+			}
+		}
+		switch {
+		case !readable:
+			c.Undecidedf(rule, "unbatched-only-for-ping", as.Pos(), "the batching flag is computed by `%s`", c.Src(as))
+		case good:
 			c.Okf(rule, "unbatched-only-for-ping", as.Pos(), "the envelope is omitted only when resume is disabled or the batch is a single ping")
-		} else {
+		case guardReadable:
+			c.Failf(rule, "unbatched-only-for-ping", as.Pos(), "`%s` switches the MULTI/EXEC + checkpoint envelope off in a case that is neither 'resume disabled' nor 'the batch is a lone ping' (%s): that batch is applied without a transaction and without moving the checkpoint, so a cut inside or after it restarts from the previous offset and applies its commands again", c.Src(as), witness)
+		default:
 			c.Undecidedf(rule, "unbatched-only-for-ping", as.Pos(), "the condition under which the envelope is omitted is not the known `!resume || (count == 1 && last.Cmd == \"ping\")`")
 		}
 		return true
@@ -395,6 +480,39 @@ func exemption(c *core.Ctx, s *c03.Sender, e *envelope) {
 	if n == 0 {
 		c.Okf(rule, "unbatched-only-for-ping", s.Lit.Pos(), "the batching flag is never cleared")
 	}
+}
+
+// isLastIndex: e is batch[len(batch)-1] written out.
+func isLastIndex(info *types.Info, s *c03.Sender, e ast.Expr) bool {
+	ix, ok := ast.Unparen(e).(*ast.IndexExpr)
+	if !ok || !c03.IsObj(info, s.Tunnel)(ix.X) {
+		return false
+	}
+	idx := ast.Unparen(ix.Index)
+	if o, ok := c03.SoleOrigin(info, s.Lit, idx); ok && o.Expr != nil && o.Op == 0 && !o.Range && o.Res < 0 {
+		if _, isID := idx.(*ast.Ident); isID {
+			idx = ast.Unparen(o.Expr)
+		}
+	}
+	be, ok := idx.(*ast.BinaryExpr)
+	if !ok || be.Op != token.SUB {
+		return false
+	}
+	if v, isC := core.IntConst(info, be.Y); !isC || v != 1 {
+		return false
+	}
+	lx := ast.Unparen(be.X)
+	if o, ok := c03.SoleOrigin(info, s.Lit, lx); ok && o.Expr != nil && o.Op == 0 && !o.Range && o.Res < 0 {
+		if _, isID := lx.(*ast.Ident); isID {
+			lx = ast.Unparen(o.Expr)
+		}
+	}
+	call, ok := lx.(*ast.CallExpr)
+	if !ok || len(call.Args) != 1 || !c03.IsObj(info, s.Tunnel)(call.Args[0]) {
+		return false
+	}
+	b, ok := core.Callee(info, call).(*types.Builtin)
+	return ok && b.Name() == "len"
 }
 
 // lastOfBatch: e (a local or expression) denotes batch[len(batch)-1].
